@@ -751,3 +751,5 @@ func (w *elWorker) block(n engine.Node) (engine.Node, []V) {
 	}
 	return c, vs
 }
+
+func (w *elWorker) ProviderForTier2() *env.Provider { return w.p }
